@@ -77,7 +77,7 @@ func menuStrings() [][][]byte {
 		bs("RENAMENX", "s1", "s2"), bs("RENAMENX", "s1", "s1"), bs("TYPE", "s1"), bs("KEYS", "s*"), bs("KEYS", "s?"), bs("SET", "s2", ""), bs("GET", "s2"),
 		// empty values and a key only ever touched through derived commands
 		bs("APPEND", "s3", ""), bs("APPEND", "s1", ""), bs("EXISTS", "s3"), bs("GET", "s3"), bs("SETNX", "s3", "n"), bs("MSETNX", "s3", "m"), bs("GETSET", "s3", ""), bs("STRLEN", "s3"),
-		bs("INCRBY", "s3", "0"), bs("DECRBY", "s3", "0"), bs("GETRANGE", "s3", "0", "0"), bs("DEL", "s3"), bs("MSET", "s3", ""), bs("MGET", "s3", "s3")}
+		bs("INCRBY", "s3", "0"), bs("DECRBY", "s3", "0"), bs("MSETNX", "s3", "first", "s3", "last"), bs("MSETNX", "s4", "1", "s3", "2", "s4", "3"), bs("MSET", "s3", "1", "s3", "2"), bs("GET", "s4"), bs("DEL", "s4"), bs("GETRANGE", "s3", "0", "0"), bs("DEL", "s3"), bs("MSET", "s3", ""), bs("MGET", "s3", "s3")}
 }
 func menuHashes() [][][]byte {
 	return [][][]byte{bs("HSET", "h1", "f", "v"), bs("HSET", "h1", "g", "w"), bs("HSET", "h1", "f", "x"), bs("HSETNX", "h1", "f", "y"), bs("HSETNX", "h1", "n", "y"), bs("HGET", "h1", "f"), bs("HGET", "h1", "zz"),
@@ -89,7 +89,7 @@ func menuHashes() [][][]byte {
 }
 func menuLists() [][][]byte {
 	return [][][]byte{bs("RPUSH", "l1", "a"), bs("RPUSH", "l1", "b", "c"), bs("LPUSH", "l1", "x", "y"), bs("LPUSHX", "l1", "p"), bs("RPUSHX", "l2", "q"), bs("LPOP", "l1"), bs("RPOP", "l1"),
-		bs("LPOP", "l1", "2"), bs("RPOP", "l1", "3"), bs("LPOP", "l1", "9223372036854775807"), bs("RPOP", "l1", "4000000000000"), bs("LRANGE", "l1", "0", "-1"), bs("LRANGE", "l1", "1", "1"), bs("LRANGE", "l1", "-2", "10"), bs("LRANGE", "l1", "3", "1"),
+		bs("LPOP", "l1", "2"), bs("RPOP", "l1", "3"), bs("LPOP", "l1", "9223372036854775807"), bs("RPOP", "l1", "4000000000000"), bs("RPOP", "l1", "10000000000000"), bs("LPOP", "l1", "17592186044416"), bs("LPOP", "l1", "8796093022209"), bs("RPOP", "l1", "1099511627776"), bs("LRANGE", "l1", "0", "-1"), bs("LRANGE", "l1", "1", "1"), bs("LRANGE", "l1", "-2", "10"), bs("LRANGE", "l1", "3", "1"),
 		bs("LRANGE", "l1", "-100", "100"), bs("LRANGE", "l1", "-9223372036854775808", "9223372036854775807"), bs("LRANGE", "l1", "9223372036854775807", "-9223372036854775808"), bs("LINDEX", "l1", "9223372036854775807"), bs("LINDEX", "l1", "-9223372036854775808"), bs("LINDEX", "l1", "0"), bs("LINDEX", "l1", "-1"), bs("LINDEX", "l1", "7"), bs("LLEN", "l1"), bs("LLEN", "l2"), bs("EXISTS", "l1", "l2"), bs("TYPE", "l1"),
 		bs("DEL", "l1"), bs("RENAME", "l1", "l2"), bs("LRANGE", "l2", "0", "-1"), bs("KEYS", "l*"),
 		// the renamed list is used further, drained, renamed back
